@@ -800,7 +800,9 @@ class Scores:
         if f(max_eer) < 0:
             # Relative comparison only: with very many easy samples both ratios are tiny
             # and an absolute tolerance would call any two of them equal.
-            if np.isclose(self.hard_pos_ratio, self.hard_neg_ratio, atol=0.0):
+            if np.isclose(
+                self.hard_pos_ratio, self.hard_neg_ratio, rtol=1e-12, atol=0.0
+            ):
                 threshold = (
                     self.threshold_at_fpr(max_eer) + self.threshold_at_fnr(max_eer)
                 ) / 2
@@ -821,7 +823,7 @@ class Scores:
         # At the crossing both inverse curves give the same threshold, but only up to the
         # resolution with which a rate determines a threshold on each of them. We read
         # the threshold from the curve that is flatter around the crossing.
-        delta = 1e-9
+        delta = 1e-9 * max_eer
         steepness = [
             np.abs(g(min(eer + delta, max_eer)) - g(max(eer - delta, 0.0)))
             for g in (self.threshold_at_fpr, self.threshold_at_fnr)
